@@ -12,7 +12,7 @@ LEVEL_TEXT = (
     "definition tables are filled in a fixed (sorted) file order and never overwrite; no report text can print an SSA version"
     " (call-graph reachability over the type-checked program from every report-producing function to the version printer, log"
     " macros excluded, with a positive control); no report is selected first-wins inside a loop; the per-definition CFG cache is"
-    " taken and put back around each analysis; a failing file does not stop the others; the merging loops have no early exit; desugaring resolves against the table it was given; no process-wide state.; the library constructor evaluated on file maps with gaps in three orders; no element is chosen from a hash-ordered iteration outside two reviewed sites (type-resolved ledger); phi placement does not depend on the order of a written-variable set."
+    " taken and put back around each analysis; a failing file does not stop the others; the merging loops have no early exit; desugaring resolves against the table it was given; no process-wide state.; the library constructor evaluated on file maps with gaps in three orders; no element is chosen from a hash-ordered iteration outside two reviewed sites (type-resolved ledger); phi placement does not depend on the order of a written-variable set. parse_files is evaluated on every order of its model projects (shared with C02.14)."
 )
 NOT_DECIDED = "order-independence of every analysis result (that each pass computes the same set whatever the iteration order of its internal hash maps)."
 TRUSTED = ["rustc MIR and trait resolution (engines/mirfacts)", "syn parser", "formatting edges: Argument::new_debug/new_display::<T> stands for a call of <T as Debug/Display>::fmt"]
@@ -397,4 +397,7 @@ def run(ctx):
 
     ctx.include("C17.8", "prerequisite shared with C09: taint reachability is the full reflexive-transitive closure (a bounded search makes the answer depend on hash order) and every version of a variable gets its own claim (shared with C09.1/C09.4)", c09.rule_taint, c09.rule_selection, only=["taints_any", "multi_step_taint", "report/"])
     ctx.include("C17.5", "a file that fails to parse does not stop the remaining files from being read (otherwise findings depend on the order of the command line)", c19.rule_user_inputs, only=["parse_files/"])
+    import parseval
+
+    ctx.include("C17.16", "what `parse_files` builds does not depend on the order in which the files were read: with two main components it reports and builds nothing, for every order of the projects it is evaluated on (shared with C02.14)", lambda c: parseval.rule(c, "C02.14"))
     ctx.include("C17.7", "whether a file counts as user input does not depend on the order in which files were read: the user inputs are the set of canonical paths queued from the command line, and the stack holds plain canonical paths (shared with C19.1/C19.4)", c19.rule_canonical, c19.rule_user_inputs)
